@@ -102,6 +102,12 @@ RefParse(node, in, p, fe) ==
          IF ParseAbsent(in) THEN
               (IF node.req THEN <<Iss(p, "not_nil", DType(node))>> ELSE <<>>)
          ELSE RefParse(Elem(node), in, p, fe)
+    \* C12: a Preprocess type mismatch or error becomes an issue and skips the wrapped schema
+    [] node.k = "pre" ->
+         IF ~StrInput(in, node) THEN <<Iss(p, "coerce", DType(node))>>
+         ELSE IF node.ty = "err" THEN <<Iss(p, "", DType(node))>>            \* a plain error: wrapped, no code
+         ELSE IF node.ty = "zerr" THEN <<Iss(p, "prez", DType(node))>>       \* a ZogIssue returned by the function
+         ELSE RefParse(Elem(node), in, p, fe)
     [] OTHER -> <<>>
 
 (***************************************************************************)
@@ -185,6 +191,7 @@ RefDestParse(node, in, dp, d, fe) ==
          IF ParseAbsent(in) THEN d
          ELSE LET d1 == IF d[dp] = 0 THEN (dp :> 1) @@ ZeroDest(Elem(node), Append(dp, "*")) @@ d ELSE d
               IN RefDestParse(Elem(node), in, Append(dp, "*"), d1, fe)
+    [] node.k = "pre" -> IF StrInput(in, node) /\ node.ty = "ok" THEN RefDestParse(Elem(node), in, dp, d, fe) ELSE d
     [] OTHER -> d
 
 \* destination after Validate: changed only through Default and Catch (C19, C05)
@@ -247,6 +254,7 @@ ValidP(node, in, d, dp, fe) ==
     [] node.k = "ptr" ->
          IF ParseAbsent(in) THEN ~node.req
          ELSE d[dp] = 1 /\ ValidP(Elem(node), in, d, Append(dp, "*"), fe)
+    [] node.k = "pre" -> StrInput(in, node) /\ node.ty = "ok" /\ ValidP(Elem(node), in, d, dp, fe)
     [] OTHER -> TRUE
 
 \* Validate: d0 is the value before the call (tells which nodes were absent), d the value after
@@ -290,6 +298,7 @@ CatchPathsP(node, in, p, fe) ==
                     ELSE IF in.t = "list" THEN in.items ELSE <<Ent("", in)>>
          IN UNION {CatchPathsP(Elem(node), src[i].val, Append(p, Idx(i - 1)), fe) : i \in DOMAIN src}
     [] node.k = "ptr" -> IF ParseAbsent(in) THEN {} ELSE CatchPathsP(Elem(node), in, p, fe)
+    [] node.k = "pre" -> IF StrInput(in, node) /\ node.ty = "ok" THEN CatchPathsP(Elem(node), in, p, fe) ELSE {}
     [] OTHER -> {}
 
 RECURSIVE CatchPathsV(_, _, _, _)
